@@ -256,7 +256,7 @@ def k_batch(N=3, G=1, mode="both", states=2, max_est=10000, sym_np=True, shapes=
                 ex.check(ja.blocked_by == blk[i], "C02/C09: remaining blockers changed without a result")
         ex.check(cluster.config.submitted_jobs == sum(1 for j in jobs_after.values() if j.state != JobState.NOT_SUBMITTED),
                  "C09: submitted counter != recount")
-        ex.check(raised is None, "C01/C05: fault-free submitter round raised", error=raised)
+        ex.check(raised is None, "C01/C05/C09: fault-free submitter round raised", error=raised)
         ex.check(not os.path.exists(lock), "C05/C11: round marker left behind by a fault-free round")
         ex.reached()
 
